@@ -579,7 +579,12 @@ class Emit:
                 raise Untranslatable(f"non-integral float literal {a[2]}")
             return f"(XF.fin {q})"
         if k == "const":
-            return {"zero": "XF.zero", "one": "XF.one", "eps": "XF.eps64"}[a[1]]
+            if a[1] == "eps":
+                # `F::epsilon()` depends on the float type the builder is instantiated at: the builder gets a
+                # `carrier` field (f64 | f32) and the guard reads `XF.epsOf p.carrier`
+                self.b.field("carrier", "carrier")
+                return "(XF.epsOf p.carrier)"
+            return {"zero": "XF.zero", "one": "XF.one"}[a[1]]
         if k == "field":
             return f"p.{a[1]}"
         if k == "var":
@@ -676,6 +681,8 @@ def parser_for(name, t, ns):
         return f'argXF toks "{name}"'
     if t == "bool":
         return f'argBool toks "{name}"'
+    if t == "carrier":
+        return f'argCarrier toks "{name}"'
     if t[0] == "pair":
         return f'arg{LEAN_TY[t[1]]}Pair toks "{name}"'
     if t[0] == "optpair":
@@ -747,6 +754,8 @@ def emit_builder(b):
         t = b.fields[f]
         if t == "bool":
             lt = "Bool"
+        elif t == "carrier":
+            lt = "Carrier"
         elif isinstance(t, tuple) and t[0] == "enum":
             lt = f.capitalize() + "T"
         elif isinstance(t, tuple) and t[0] == "nested":
